@@ -224,7 +224,18 @@ func (s *Sim) Gen(r *PRNG) Step {
 	switch k {
 	case "release", "prel":
 		st.A = r.Intn(4)
-		if r.Intn(100) < s.Cfg.FaultPct {
+		pct := s.Cfg.FaultPct
+		if k == "release" && pct > 0 {
+			// bias: writes whose failure leaves the most in-flight state (status
+			// writes, pod deletes, revision writes) get faults three times as often
+			if ws := s.ParkedWorkers(); len(ws) > 0 {
+				c := ws[st.A%len(ws)].pending
+				if c.Sub == "status" || (c.Kind == KPod && c.Verb == "delete") || (c.Kind == KRev && c.IsWrite()) {
+					pct *= 3
+				}
+			}
+		}
+		if r.Intn(100) < pct {
 			st.B = s.genFault(r)
 			st.C = r.Intn(4)
 		}
